@@ -335,3 +335,8 @@ package common
 //@   property C01
 //@   ensures result != nil && (b != nil ==> result.buf == b) && (b == nil ==> len(result.buf) == 0 && fresh(ref(result.buf)))
 //@   fresh result
+
+//@ func (*ZeroCopySource).Pos
+//@   inline
+//@ func (*ZeroCopySource).Size
+//@   inline
